@@ -1,1 +1,853 @@
-fn main() {}
+//! C30 — MoonBit output forms a consistent package graph.
+//!
+//! Space: worlds with n interfaces (quick n = 2..3, thorough n = 2..5) spread over 1..3 WIT packages
+//! taken from a pool of kebab-case / versioned / same-name-different-namespace package ids, interface
+//! names from a pool in which last path segments coincide (and one that looks like a de-duplicated
+//! alias), every interface defining a record + a function and optionally using the record types of
+//! earlier interfaces, each interface imported / exported / both, with or without world-level
+//! functions over the interfaces' types; x {sync, `--async=all`}.
+//!
+//! Oracle (from the statement, on the generated files only): every directory with a `moon.pkg.json`
+//! is a package; every `@alias.` used in one of its `.mbt` files (string literals, comments and
+//! `#|` lines skipped) is declared in its import list; aliases are unique within a package and no
+//! package path is imported twice; every imported path is `<moon.mod.json name>/<dir>` of a generated
+//! package (or a `moonbitlang/core/` standard-library package); the symbol named after `@alias.` is
+//! defined in the package the alias maps to; every interface of the world has a package directory
+//! whose path spells the WIT namespace / package / interface names unchanged (kebab case kept,
+//! optional de-duplication digits at the end).
+
+use e7_text::*;
+use serde_json::{json, Value};
+use std::collections::{BTreeMap, BTreeSet};
+use wit_bindgen_core::wit_parser::{Resolve, WorldId, WorldItem, WorldKey};
+
+// ---------------------------------------------------------------------------------------------
+// World enumeration
+// ---------------------------------------------------------------------------------------------
+
+/// (namespace, name, version)
+const PKG_POOL: &[(&str, &str, &str)] = &[
+    ("my-ns", "my-pkg", ""),
+    ("my-ns", "other-pkg", "1.2.3"),
+    ("other-ns", "my-pkg", ""),
+    ("my-ns", "other-pkg", "2.0.0"),
+];
+const NAME_POOL: &[&str] = &["types", "leaf-interface", "types0"];
+const WORLD_PKG: (&str, &str) = ("my-ns", "world-pkg");
+const WORLD_NAME: &str = "http-proxy";
+
+#[derive(Clone, Debug, PartialEq)]
+struct Iface {
+    pkg: usize,
+    name: usize,
+    /// indices of earlier interfaces whose record type this one uses
+    uses: Vec<usize>,
+    /// 0 import, 1 export, 2 both
+    dir: u8,
+}
+
+#[derive(Clone, Debug)]
+struct Spec {
+    ifaces: Vec<Iface>,
+    world_funcs: bool,
+    async_all: bool,
+}
+
+fn pkg_id(p: usize) -> String {
+    let (ns, n, v) = PKG_POOL[p];
+    if v.is_empty() {
+        format!("{ns}:{n}")
+    } else {
+        format!("{ns}:{n}@{v}")
+    }
+}
+
+fn iface_path(i: &Iface) -> String {
+    let (ns, n, v) = PKG_POOL[i.pkg];
+    let name = NAME_POOL[i.name];
+    if v.is_empty() {
+        format!("{ns}:{n}/{name}")
+    } else {
+        format!("{ns}:{n}/{name}@{v}")
+    }
+}
+
+/// WIT texts, dependency packages first (interfaces only use earlier interfaces and are sorted
+/// by package index, so the package order is a topological order), the world's package last.
+fn build_wit(spec: &Spec) -> Vec<(String, String)> {
+    let mut out = Vec::new();
+    let mut pkgs: Vec<usize> = spec.ifaces.iter().map(|i| i.pkg).collect();
+    pkgs.dedup();
+    for p in pkgs {
+        let mut text = format!("package {};\n\n", pkg_id(p));
+        for (k, i) in spec.ifaces.iter().enumerate().filter(|(_, i)| i.pkg == p) {
+            text += &format!("/// interface number {k}\ninterface {} {{\n", NAME_POOL[i.name]);
+            for &j in &i.uses {
+                let dep = &spec.ifaces[j];
+                if dep.pkg == p {
+                    text += &format!("  use {}.{{t-{j}}};\n", NAME_POOL[dep.name]);
+                } else {
+                    text += &format!("  use {}.{{t-{j}}};\n", iface_path(dep));
+                }
+            }
+            text += &format!("  record t-{k} {{\n    x: u32,\n");
+            for &j in &i.uses {
+                text += &format!("    dep-{j}: t-{j},\n");
+            }
+            text += "  }\n";
+            text += &format!("  enum e-{k} {{ a, b }}\n");
+            let mut params = format!("a: t-{k}, e: e-{k}");
+            for &j in &i.uses {
+                params += &format!(", b-{j}: t-{j}");
+            }
+            text += &format!("  f-{k}: func({params}) -> t-{k};\n");
+            text += "}\n\n";
+        }
+        out.push((format!("p{p}.wit"), text));
+    }
+    let mut w = format!("package {}:{};\n\nworld {WORLD_NAME} {{\n", WORLD_PKG.0, WORLD_PKG.1);
+    for i in &spec.ifaces {
+        if i.dir == 0 || i.dir == 2 {
+            w += &format!("  import {};\n", iface_path(i));
+        }
+        if i.dir == 1 || i.dir == 2 {
+            w += &format!("  export {};\n", iface_path(i));
+        }
+    }
+    if spec.world_funcs {
+        for (k, i) in spec.ifaces.iter().enumerate() {
+            w += &format!("  use {}.{{t-{k}}};\n", iface_path(i));
+        }
+        let params = (0..spec.ifaces.len())
+            .map(|k| format!("p-{k}: t-{k}"))
+            .collect::<Vec<_>>()
+            .join(", ");
+        let last = spec.ifaces.len() - 1;
+        w += &format!("  import world-in: func({params}) -> t-{last};\n");
+        w += &format!("  export world-out: func({params}) -> t-0;\n");
+    }
+    w += "}\n";
+    out.push(("world.wit".into(), w));
+    out
+}
+
+fn enumerate(thorough: bool) -> (Vec<Spec>, Value) {
+    let max_n = if thorough { 5 } else { 3 };
+    let mut specs = Vec::new();
+    let mut per_n = BTreeMap::new();
+    for n in 2..=max_n {
+        // (pkg, name) assignments: package indices non-decreasing, at most 3 distinct packages,
+        // (pkg, name) pairs distinct; for n = 5 only the first two names (keeps the space small)
+        let names = if n >= 5 { 2 } else { NAME_POOL.len() };
+        let mut assigns: Vec<Vec<(usize, usize)>> = vec![vec![]];
+        for _ in 0..n {
+            let mut next = Vec::new();
+            for a in &assigns {
+                let lo = a.last().map(|x| x.0).unwrap_or(0);
+                for p in lo..PKG_POOL.len() {
+                    for nm in 0..names {
+                        if a.contains(&(p, nm)) {
+                            continue;
+                        }
+                        let mut b = a.clone();
+                        b.push((p, nm));
+                        let distinct: BTreeSet<usize> = b.iter().map(|x| x.0).collect();
+                        if distinct.len() <= 3 {
+                            next.push(b);
+                        }
+                    }
+                }
+            }
+            assigns = next;
+        }
+        // uses patterns
+        let use_patterns: Vec<Vec<Vec<usize>>> = if n <= 3 && thorough {
+            // every subset of earlier interfaces for every interface
+            let mut pats: Vec<Vec<Vec<usize>>> = vec![vec![]];
+            for i in 0..n {
+                let mut next = Vec::new();
+                for p in &pats {
+                    for mask in 0..(1u32 << i) {
+                        let mut q = p.clone();
+                        q.push((0..i).filter(|j| mask & (1 << j) != 0).collect());
+                        next.push(q);
+                    }
+                }
+                pats = next;
+            }
+            pats
+        } else {
+            vec![
+                (0..n).map(|_| vec![]).collect(),                                  // none
+                (0..n).map(|i| if i > 0 { vec![i - 1] } else { vec![] }).collect(), // chain
+                (0..n).map(|i| (0..i).collect()).collect(),                        // all earlier
+                (0..n).map(|i| if i > 0 { vec![0] } else { vec![] }).collect(),     // star: everyone uses the first
+            ]
+        };
+        let mut use_patterns = use_patterns;
+        use_patterns.sort();
+        use_patterns.dedup();
+        let dir_patterns: Vec<Vec<u8>> = vec![
+            vec![0; n],
+            vec![1; n],
+            vec![2; n],
+            (0..n).map(|i| (i % 2) as u8).collect(),
+            (0..n).map(|i| ((i + 1) % 2) as u8).collect(),
+        ];
+        let before = specs.len();
+        for a in &assigns {
+            for u in &use_patterns {
+                for d in &dir_patterns {
+                    for world_funcs in [false, true] {
+                        for async_all in [false, true] {
+                            specs.push(Spec {
+                                ifaces: (0..n)
+                                    .map(|i| Iface { pkg: a[i].0, name: a[i].1, uses: u[i].clone(), dir: d[i] })
+                                    .collect(),
+                                world_funcs,
+                                async_all,
+                            });
+                        }
+                    }
+                }
+            }
+        }
+        per_n.insert(
+            n.to_string(),
+            json!({"name_assignments": assigns.len(), "use_patterns": use_patterns.len(), "dir_patterns": dir_patterns.len(), "worlds": specs.len() - before}),
+        );
+    }
+    (specs, json!(per_n))
+}
+
+// ---------------------------------------------------------------------------------------------
+// Scanning generated MoonBit
+// ---------------------------------------------------------------------------------------------
+
+/// `@alias.Symbol` uses outside comments, string / char literals and `#|` / `$|` lines.
+fn scan_uses(src: &str) -> Vec<(String, String)> {
+    let mut out = Vec::new();
+    for line in src.lines() {
+        let t = line.trim_start();
+        if t.starts_with("#|") || t.starts_with("$|") {
+            continue;
+        }
+        let b = line.as_bytes();
+        let mut i = 0;
+        while i < b.len() {
+            match b[i] {
+                b'/' if i + 1 < b.len() && b[i + 1] == b'/' => break,
+                b'"' => {
+                    i += 1;
+                    while i < b.len() && b[i] != b'"' {
+                        if b[i] == b'\\' {
+                            i += 1;
+                        }
+                        i += 1;
+                    }
+                    i += 1;
+                }
+                b'\'' => {
+                    // char literal: 'x', '\n', '\u{..}'
+                    if i + 1 < b.len() && b[i + 1] == b'\\' {
+                        i += 2;
+                        while i < b.len() && b[i] != b'\'' {
+                            i += 1;
+                        }
+                        i += 1;
+                    } else {
+                        // one (possibly multi-byte) character followed by a quote
+                        let rest = &line[i + 1..];
+                        let mut cs = rest.char_indices();
+                        match (cs.next(), cs.next()) {
+                            (Some(_), Some((k, '\''))) => i += 1 + k + 1,
+                            _ => i += 1,
+                        }
+                    }
+                }
+                b'@' => {
+                    let s = i + 1;
+                    let mut j = s;
+                    while j < b.len() && (b[j].is_ascii_alphanumeric() || b[j] == b'_' || b[j] == b'-' || b[j] == b'/') {
+                        j += 1;
+                    }
+                    if j > s && j < b.len() && b[j] == b'.' {
+                        let alias = line[s..j].to_string();
+                        let ss = j + 1;
+                        let mut k = ss;
+                        while k < b.len() && (b[k].is_ascii_alphanumeric() || b[k] == b'_') {
+                            k += 1;
+                        }
+                        out.push((alias, line[ss..k].to_string()));
+                        i = k;
+                    } else {
+                        i = j.max(i + 1);
+                    }
+                }
+                _ => i += 1,
+            }
+        }
+    }
+    out
+}
+
+/// Is `sym` defined at top level in this MoonBit source (type, function, constant, trait...)?
+fn defines(src: &str, sym: &str) -> bool {
+    const MODS: &[&str] = &["pub(all)", "pub(open)", "pub(readonly)", "pub", "priv", "async", "extern \"wasm\"", "extern \"js\"", "extern \"C\""];
+    const KWS: &[&str] = &["struct", "enum", "typealias", "type!", "type", "traitalias", "trait", "suberror", "fnalias", "fn", "let", "const"];
+    for line in src.lines() {
+        let mut t = line.trim_start();
+        if t.starts_with("//") {
+            continue;
+        }
+        loop {
+            let mut stripped = false;
+            for m in MODS {
+                if let Some(r) = t.strip_prefix(m) {
+                    if r.starts_with(' ') {
+                        t = r.trim_start();
+                        stripped = true;
+                    }
+                }
+            }
+            if !stripped {
+                break;
+            }
+        }
+        let Some(rest) = KWS.iter().find_map(|k| {
+            t.strip_prefix(k).filter(|r| r.starts_with(' ') || r.starts_with('['))
+        }) else {
+            continue;
+        };
+        let mut rest = rest.trim_start();
+        // generic parameters before the name: `fn[X] name`
+        if rest.starts_with('[') {
+            let mut depth = 0;
+            let mut end = rest.len();
+            for (i, c) in rest.char_indices() {
+                match c {
+                    '[' => depth += 1,
+                    ']' => {
+                        depth -= 1;
+                        if depth == 0 {
+                            end = i + 1;
+                            break;
+                        }
+                    }
+                    _ => {}
+                }
+            }
+            rest = rest[end..].trim_start();
+        }
+        let name: String = rest
+            .chars()
+            .take_while(|c| c.is_alphanumeric() || *c == '_' || *c == ':')
+            .collect();
+        // `fn Type::method` defines `Type::method`, not a top-level `method`
+        if name == sym {
+            return true;
+        }
+    }
+    false
+}
+
+struct Package {
+    dir: String,
+    /// (path, alias)
+    imports: Vec<(String, String)>,
+    mbt: Vec<(String, String)>,
+}
+
+fn parse_packages(files: &FileMap) -> Result<(String, Vec<Package>, Vec<(String, String)>), String> {
+    let project = match files.get("moon.mod.json") {
+        Some(b) => {
+            let v: Value = serde_json::from_slice(b).map_err(|e| format!("moon.mod.json: {e}"))?;
+            v["name"].as_str().ok_or("moon.mod.json without name")?.to_string()
+        }
+        None => return Err("moon.mod.json not generated".into()),
+    };
+    let mut pkgs: BTreeMap<String, Package> = BTreeMap::new();
+    for (name, bytes) in files {
+        if let Some(dir) = name.strip_suffix("/moon.pkg.json").or(if name == "moon.pkg.json" { Some("") } else { None }) {
+            let v: Value = serde_json::from_slice(bytes).map_err(|e| format!("{name}: not JSON: {e}"))?;
+            let mut imports = Vec::new();
+            if let Some(arr) = v.get("import") {
+                let arr = arr.as_array().ok_or(format!("{name}: import is not an array"))?;
+                for e in arr {
+                    if let Some(p) = e.as_str() {
+                        imports.push((p.to_string(), p.rsplit('/').next().unwrap_or(p).to_string()));
+                    } else {
+                        let p = e["path"].as_str().ok_or(format!("{name}: import without path"))?;
+                        let a = e["alias"]
+                            .as_str()
+                            .map(|s| s.to_string())
+                            .unwrap_or_else(|| p.rsplit('/').next().unwrap_or(p).to_string());
+                        imports.push((p.to_string(), a));
+                    }
+                }
+            }
+            pkgs.insert(dir.to_string(), Package { dir: dir.to_string(), imports, mbt: Vec::new() });
+        }
+    }
+    let mut orphans = Vec::new();
+    for (name, bytes) in files {
+        if name.ends_with(".mbt") {
+            let dir = name.rsplit_once('/').map(|x| x.0).unwrap_or("");
+            let text = String::from_utf8_lossy(bytes).into_owned();
+            match pkgs.get_mut(dir) {
+                Some(p) => p.mbt.push((name.clone(), text)),
+                None => orphans.push((name.clone(), text)),
+            }
+        }
+    }
+    Ok((project, pkgs.into_values().collect(), orphans))
+}
+
+/// Standard-library packages that are not part of the generated output. Only
+/// `crates/moonbit/src/async/moon.pkg.json` (copied verbatim to `async-core/moon.pkg.json`)
+/// imports them: `moonbitlang/core/{deque,ref,set}`; `moonbitlang/core` is the MoonBit standard
+/// library module shipped with the toolchain.
+const EXTERNAL_PREFIXES: &[&str] = &["moonbitlang/core/"];
+
+fn digits_suffix_of(base: &str, dir: &str) -> bool {
+    dir.strip_prefix(base)
+        .map(|rest| rest.chars().all(|c| c.is_ascii_digit()))
+        .unwrap_or(false)
+}
+
+/// injective assignment of expected base paths to generated package dirs (tiny backtracking)
+fn match_dirs(expected: &[String], dirs: &[String], used: &mut Vec<bool>, k: usize) -> bool {
+    if k == expected.len() {
+        return true;
+    }
+    for (i, d) in dirs.iter().enumerate() {
+        if !used[i] && digits_suffix_of(&expected[k], d) {
+            used[i] = true;
+            if match_dirs(expected, dirs, used, k + 1) {
+                return true;
+            }
+            used[i] = false;
+        }
+    }
+    false
+}
+
+struct Outcome {
+    /// (key, what)
+    items: Vec<(String, String)>,
+    generator: String,
+    packages: usize,
+    uses: usize,
+    cross_edges: usize,
+    max_alias_suffix: bool,
+}
+
+/// expected package directories, from the WIT names of the (elaborated) world's items alone
+fn expected_dirs(resolve: &Resolve, world: WorldId) -> Vec<String> {
+    let w = &resolve.worlds[world];
+    let mut v = Vec::new();
+    let mut export_funcs = false;
+    for (prefix, items) in [("", &w.imports), ("gen/", &w.exports)] {
+        for (key, item) in items.iter() {
+            match (key, item) {
+                (WorldKey::Interface(id), WorldItem::Interface { .. }) => {
+                    let iface = &resolve.interfaces[*id];
+                    let pkg = &resolve.packages[iface.package.unwrap()].name;
+                    v.push(format!(
+                        "{prefix}interface/{}/{}/{}",
+                        pkg.namespace,
+                        pkg.name,
+                        iface.name.as_deref().unwrap_or("")
+                    ));
+                }
+                (WorldKey::Name(n), WorldItem::Interface { .. }) => v.push(format!("{prefix}interface/{n}")),
+                (_, WorldItem::Function(_)) if !prefix.is_empty() => export_funcs = true,
+                _ => {}
+            }
+        }
+    }
+    v.push(format!("world/{}", w.name));
+    if export_funcs {
+        v.push(format!("gen/world/{}", w.name));
+    }
+    v
+}
+
+fn check(spec: &Spec, dump: bool) -> Outcome {
+    let texts = build_wit(spec);
+    let input = Input::Texts(texts.clone());
+    let mut o = Outcome { items: vec![], generator: String::new(), packages: 0, uses: 0, cross_edges: 0, max_alias_suffix: false };
+    let (mut resolve, world) = match parse(&input, Some(WORLD_NAME)) {
+        Ok(x) => x,
+        Err(m) => {
+            // some import/export mixes are rejected by wit-parser ("transitively depends on an
+            // interface in incompatible ways"): outside the property's domain, counted
+            o.generator = "invalid-world".into();
+            let m = m.replace(|c: char| c.is_ascii_digit(), "N");
+            let m = match m.find("interface `") {
+                Some(i) => match m[i + 11..].find('`') {
+                    Some(j) => format!("{}interface `_`{}", &m[..i], &m[i + 11 + j + 1..]),
+                    None => m,
+                },
+                None => m,
+            };
+            o.items.push((String::new(), m));
+            return o;
+        }
+    };
+    let expected = expected_dirs(&resolve, world);
+    let gen = generate_resolved(&mut resolve, world, &Backend::MoonBit { async_all: spec.async_all });
+    o.generator = gen.class().to_string();
+    let files = match gen {
+        Gen::Ok(f) => f,
+        Gen::Invalid(m) => vcommon::machinery(&format!("C30 enumerated world is not valid WIT: {m}\n{texts:?}")),
+        Gen::Err(m) | Gen::Panic(m) => {
+            o.items.push((String::new(), m));
+            return o;
+        }
+    };
+    if dump {
+        for (n, b) in &files {
+            if n.ends_with("moon.pkg.json") || n.ends_with("moon.mod.json") {
+                println!("=== {n}\n{}", String::from_utf8_lossy(b));
+            } else {
+                println!("=== {n} ({} bytes)", b.len());
+                if n.ends_with(".mbt") {
+                    for u in scan_uses(&String::from_utf8_lossy(b)) {
+                        println!("      @{}.{}", u.0, u.1);
+                    }
+                }
+            }
+        }
+    }
+    let (project, pkgs, orphans) = match parse_packages(&files) {
+        Ok(x) => x,
+        Err(e) => {
+            o.items.push((format!("unparsable:{e}"), e));
+            return o;
+        }
+    };
+    o.packages = pkgs.len();
+    let dirs: BTreeSet<&str> = pkgs.iter().map(|p| p.dir.as_str()).collect();
+    let by_dir: BTreeMap<&str, &Package> = pkgs.iter().map(|p| (p.dir.as_str(), p)).collect();
+    let kind_of = |dir: &str| -> String {
+        // position of a package in the graph, without the enumerated names
+        let d = dir;
+        if d == "gen" {
+            "gen".into()
+        } else if d.starts_with("gen/interface/") {
+            "export-interface".into()
+        } else if d.starts_with("interface/") {
+            "import-interface".into()
+        } else if d.starts_with("gen/world/") {
+            "export-world".into()
+        } else if d.starts_with("world/") {
+            "import-world".into()
+        } else {
+            d.to_string()
+        }
+    };
+    for (name, text) in &orphans {
+        let uses = scan_uses(text);
+        if let Some((a, _)) = uses.first() {
+            o.items.push((
+                format!("no-package-file:{}", name.rsplit_once('/').map(|x| x.0).unwrap_or("")),
+                format!("{name} uses @{a}. but its directory has no moon.pkg.json"),
+            ));
+        }
+    }
+    for p in &pkgs {
+        let kind = kind_of(&p.dir);
+        // R1 / R2
+        let mut by_alias: BTreeMap<&str, Vec<&str>> = BTreeMap::new();
+        let mut by_path: BTreeMap<&str, usize> = BTreeMap::new();
+        for (path, alias) in &p.imports {
+            by_alias.entry(alias.as_str()).or_default().push(path.as_str());
+            *by_path.entry(path.as_str()).or_insert(0) += 1;
+        }
+        for (alias, paths) in &by_alias {
+            if paths.len() > 1 {
+                o.items.push((
+                    format!("duplicate-alias:{kind}"),
+                    format!("package {} declares alias {alias:?} {} times: {paths:?}", p.dir, paths.len()),
+                ));
+            }
+            if alias.chars().last().map(|c| c.is_ascii_digit()).unwrap_or(false) {
+                o.max_alias_suffix = true;
+            }
+        }
+        for (path, c) in &by_path {
+            if *c > 1 {
+                o.items.push((
+                    format!("duplicate-import:{kind}"),
+                    format!("package {} imports {path:?} {c} times", p.dir),
+                ));
+            }
+        }
+        // R3
+        let mut alias_dir: BTreeMap<&str, Option<&str>> = BTreeMap::new();
+        for (path, alias) in &p.imports {
+            let local = path.strip_prefix(&format!("{project}/"));
+            match local {
+                Some(d) if dirs.contains(d) => {
+                    alias_dir.insert(alias.as_str(), Some(d));
+                    if d != p.dir {
+                        o.cross_edges += 1;
+                    }
+                }
+                _ if EXTERNAL_PREFIXES.iter().any(|e| path.starts_with(e)) => {
+                    alias_dir.insert(alias.as_str(), None);
+                }
+                _ => {
+                    alias_dir.insert(alias.as_str(), None);
+                    o.items.push((
+                        format!("missing-package:{kind}"),
+                        format!("package {} imports {path:?}, which is neither a generated package of project {project:?} nor a moonbitlang/core package", p.dir),
+                    ));
+                }
+            }
+        }
+        // R4 / R5
+        for (fname, text) in &p.mbt {
+            for (alias, sym) in scan_uses(text) {
+                o.uses += 1;
+                match alias_dir.get(alias.as_str()) {
+                    None => o.items.push((
+                        format!("undeclared-alias:{kind}"),
+                        format!("{fname} uses @{alias}.{sym} but {}/moon.pkg.json does not declare alias {alias:?} (declared: {:?})", p.dir, p.imports),
+                    )),
+                    Some(Some(d)) => {
+                        let target = by_dir[d];
+                        if !sym.is_empty() && by_alias[alias.as_str()].len() == 1 && !target.mbt.iter().any(|(_, t)| defines(t, &sym)) {
+                            o.items.push((
+                                format!("unresolved-symbol:{kind}"),
+                                format!("{fname} uses @{alias}.{sym}; alias {alias:?} maps to package {d:?}, which does not define {sym}"),
+                            ));
+                        }
+                    }
+                    Some(None) => {}
+                }
+            }
+        }
+    }
+    // R6 kebab-case preserved / every interface has its package
+    let dir_list: Vec<String> = dirs.iter().map(|s| s.to_string()).collect();
+    let mut used = vec![false; dir_list.len()];
+    if !match_dirs(&expected, &dir_list, &mut used, 0) {
+        // name the first expected dir that has no candidate at all, else the whole set
+        let lone = expected.iter().find(|e| !dir_list.iter().any(|d| digits_suffix_of(e, d)));
+        let kind = lone.map(|e| kind_of(e)).unwrap_or_else(|| "assignment".into());
+        o.items.push((
+            format!("package-path:{kind}"),
+            format!(
+                "expected one package directory per world item spelling the WIT names unchanged: {expected:?}; generated package directories: {dir_list:?}{}",
+                lone.map(|e| format!("; nothing matches {e:?}")).unwrap_or_default()
+            ),
+        ));
+    }
+    if project != format!("{}/{}", WORLD_PKG.0, WORLD_PKG.1) {
+        o.items.push((
+            "project-name".into(),
+            format!("moon.mod.json name {project:?} does not spell the world's package {}:{}", WORLD_PKG.0, WORLD_PKG.1),
+        ));
+    }
+    o
+}
+
+fn spec_to_json(s: &Spec) -> Value {
+    json!({
+        "ifaces": s.ifaces.iter().map(|i| json!({"pkg": i.pkg, "name": i.name, "uses": i.uses, "dir": i.dir})).collect::<Vec<_>>(),
+        "world_funcs": s.world_funcs,
+        "async_all": s.async_all,
+    })
+}
+
+fn spec_from_json(v: &Value) -> Spec {
+    Spec {
+        ifaces: v["ifaces"]
+            .as_array()
+            .unwrap_or_else(|| vcommon::machinery("replay: no ifaces"))
+            .iter()
+            .map(|i| Iface {
+                pkg: i["pkg"].as_u64().unwrap() as usize,
+                name: i["name"].as_u64().unwrap() as usize,
+                uses: i["uses"].as_array().unwrap().iter().map(|x| x.as_u64().unwrap() as usize).collect(),
+                dir: i["dir"].as_u64().unwrap() as u8,
+            })
+            .collect(),
+        world_funcs: v["world_funcs"].as_bool().unwrap_or(false),
+        async_all: v["async_all"].as_bool().unwrap_or(false),
+    }
+}
+
+fn describe(s: &Spec) -> String {
+    let is = s
+        .ifaces
+        .iter()
+        .map(|i| {
+            format!(
+                "{}{}{}",
+                ["import ", "export ", "import+export "][i.dir as usize],
+                iface_path(i),
+                if i.uses.is_empty() { String::new() } else { format!(" uses {:?}", i.uses) }
+            )
+        })
+        .collect::<Vec<_>>()
+        .join("; ");
+    format!("{is}; world funcs={} async={}", s.world_funcs, s.async_all)
+}
+
+fn main() {
+    let mut run = vcommon::Run::from_args("C30", "exploration");
+    vcommon::install_quiet_panic_hook();
+    tune_malloc();
+
+    if let Some(d) = run.replay_detail() {
+        let spec = spec_from_json(&d["spec"]);
+        for (n, t) in build_wit(&spec) {
+            println!("--- {n}\n{t}");
+        }
+        println!("options: {}", if spec.async_all { "--async=all" } else { "(sync)" });
+        let dump = run.extra_args.iter().any(|a| a == "--dump");
+        let o = check(&spec, dump);
+        println!("generator: {}", o.generator);
+        for (k, w) in &o.items {
+            println!("FAILS {k}: {w}");
+        }
+        let want = d["key"].as_str().unwrap_or("");
+        let still = o.generator == "ok" && o.items.iter().any(|(k, _)| want.is_empty() || k == want);
+        println!("replay: {}", if still { "STILL FAILS" } else { "does not fail" });
+        std::process::exit(if still { 1 } else { 0 });
+    }
+
+    let (mut specs, per_n) = enumerate(run.thorough());
+    rotate(&mut specs, run.seed);
+    let n = specs.len();
+    let workers = vcommon::ncpu().min(16);
+    let chunk = 128usize;
+    let nchunks = (n + chunk - 1) / chunk;
+    let results = vcommon::par_map(nchunks, workers, |c| {
+        let mut items: Vec<Value> = Vec::new();
+        let mut seen = BTreeSet::new();
+        let mut gen: BTreeMap<String, usize> = BTreeMap::new();
+        let mut gen_msgs: BTreeMap<String, usize> = BTreeMap::new();
+        let (mut packages, mut uses, mut edges, mut suffixed) = (0usize, 0usize, 0usize, 0usize);
+        let mut shapes = BTreeSet::new();
+        for i in c * chunk..((c + 1) * chunk).min(n) {
+            let o = check(&specs[i], false);
+            *gen.entry(o.generator.clone()).or_insert(0) += 1;
+            if o.generator != "ok" {
+                for (_, m) in &o.items {
+                    *gen_msgs.entry(format!("{}: {}", o.generator, m.chars().take(160).collect::<String>())).or_insert(0) += 1;
+                }
+                continue;
+            }
+            packages += o.packages;
+            uses += o.uses;
+            edges += o.cross_edges;
+            if o.max_alias_suffix {
+                suffixed += 1;
+            }
+            if o.cross_edges > 0 {
+                shapes.insert(format!("{}p/{}e/{}", o.packages, o.cross_edges, if o.max_alias_suffix { "dedup" } else { "plain" }));
+            }
+            for (k, w) in o.items {
+                if seen.insert(k.clone()) {
+                    items.push(json!({"key": k, "what": w, "spec": i}));
+                }
+            }
+        }
+        json!({"items": items, "gen": gen, "gen_msgs": gen_msgs, "packages": packages, "uses": uses, "edges": edges, "suffixed": suffixed, "shapes": shapes})
+    });
+
+    let mut gen: BTreeMap<String, u64> = BTreeMap::new();
+    let mut gen_msgs: BTreeMap<String, u64> = BTreeMap::new();
+    let (mut packages, mut uses, mut edges, mut suffixed) = (0u64, 0u64, 0u64, 0u64);
+    let mut shapes: BTreeSet<String> = BTreeSet::new();
+    // keep, per key, the violation with the smallest world
+    let mut best: BTreeMap<String, (usize, String)> = BTreeMap::new();
+    for r in &results {
+        for (k, v) in r["gen"].as_object().unwrap() {
+            *gen.entry(k.clone()).or_insert(0) += v.as_u64().unwrap_or(0);
+        }
+        for (k, v) in r["gen_msgs"].as_object().unwrap() {
+            *gen_msgs.entry(k.clone()).or_insert(0) += v.as_u64().unwrap_or(0);
+        }
+        packages += r["packages"].as_u64().unwrap_or(0);
+        uses += r["uses"].as_u64().unwrap_or(0);
+        edges += r["edges"].as_u64().unwrap_or(0);
+        suffixed += r["suffixed"].as_u64().unwrap_or(0);
+        for s in r["shapes"].as_array().unwrap() {
+            shapes.insert(s.as_str().unwrap().to_string());
+        }
+        for it in r["items"].as_array().unwrap() {
+            let i = it["spec"].as_u64().unwrap() as usize;
+            let key = it["key"].as_str().unwrap().to_string();
+            let size = specs[i].ifaces.len() * 100
+                + specs[i].ifaces.iter().map(|x| x.uses.len()).sum::<usize>() * 10
+                + specs[i].world_funcs as usize * 5
+                + specs[i].async_all as usize;
+            let better = best.get(&key).map(|(_, _)| {
+                let (j, _) = &best[&key];
+                let sj = specs[*j].ifaces.len() * 100
+                    + specs[*j].ifaces.iter().map(|x| x.uses.len()).sum::<usize>() * 10
+                    + specs[*j].world_funcs as usize * 5
+                    + specs[*j].async_all as usize;
+                size < sj
+            });
+            if better != Some(false) {
+                best.insert(key, (i, it["what"].as_str().unwrap_or("").to_string()));
+            }
+        }
+    }
+    for (key, (i, what)) in &best {
+        run.violation(
+            key,
+            &format!("{what} [{}]", describe(&specs[*i])),
+            json!({"spec": spec_to_json(&specs[*i]), "key": key, "wit": build_wit(&specs[*i]), "case": describe(&specs[*i])}),
+        );
+    }
+    if gen.get("ok").copied().unwrap_or(0) == 0 {
+        vcommon::machinery("the MoonBit generator produced no output for any world");
+    }
+    for (k, v) in &gen_msgs {
+        println!("NOTE (not a C30 verdict): {v} worlds: {k}");
+    }
+    let mut samples = Vec::new();
+    for i in [0usize, 1, n / 3, n / 2, n - 1] {
+        samples.push(json!({"case": describe(&specs[i])}));
+    }
+    let coverage = json!({
+        "evaluations": n,
+        "distinct_nontrivial": shapes.len(),
+        "rule": "distinct (number of generated packages, number of cross-package import edges, whether a de-duplicated alias ending in a digit was needed) among worlds whose output has at least one cross-package import edge",
+        "exhaustive": true,
+        "bounds": {
+            "interfaces": if run.thorough() { "2..=5" } else { "2..=3" },
+            "package_pool": PKG_POOL.iter().enumerate().map(|(i, _)| pkg_id(i)).collect::<Vec<_>>(),
+            "interface_names": NAME_POOL,
+            "world": format!("{}:{}/{}", WORLD_PKG.0, WORLD_PKG.1, WORLD_NAME),
+            "constraints": "package indices non-decreasing over the interface list, at most 3 distinct packages, (package, name) pairs distinct; n = 5 uses the first two interface names only",
+            "uses": if run.thorough() { "n <= 3: every subset of earlier interfaces per interface; n >= 4: none / chain / all earlier / star" } else { "none / chain / all earlier / star" },
+            "directions": "all import / all export / all import+export / alternating (two phases)",
+            "world_level_funcs": [false, true],
+            "variants": ["sync", "--async=all"],
+            "per_n": per_n,
+        },
+        "packages_checked": packages,
+        "alias_uses_checked": uses,
+        "cross_package_import_edges": edges,
+        "worlds_needing_deduplicated_alias": suffixed,
+        "distinct_outcomes": gen,
+        "generator_refusals": gen_msgs,
+        "samples": samples,
+    });
+    let assumptions = vec![
+        "A MoonBit package is a directory containing moon.pkg.json; its sources are the .mbt files directly in it. `@alias.` is recognised as `@` + [A-Za-z0-9_/-]+ + `.` outside `//` comments, string/char literals and `#|`/`$|` multi-line string lines.".to_string(),
+        "External packages are whitelisted by prefix `moonbitlang/core/` only: they are imported solely by the static async-core/moon.pkg.json (crates/moonbit/src/async/moon.pkg.json: deque, ref, set) and belong to MoonBit's standard library, which is never part of generated output.".to_string(),
+        "'Kebab-case preserved': the namespace, package and interface names of every world item appear unchanged as the path segments `[gen/]interface/<ns>/<pkg>/<iface>` (a trailing de-duplication number is allowed, e.g. for two versions of one package), the world as `[gen/]world/<world>`, and moon.mod.json's name is `<ns>/<pkg>` of the world's package. Versions are not part of paths (the generator never writes them), so they are not demanded.".to_string(),
+        "The symbol check (`@alias.Sym` must be defined in the package the alias maps to) is how 'declares every package it *references*' is decided when two packages share a last path segment; a symbol counts as defined if a top-level struct/enum/type/fn/let/const/trait line names it.".to_string(),
+        "Generator options mirror the CLI defaults plus the repository's codegen-test flags (gen_dir=gen, --derive-*); --ignore-stub / --ignore-module-file / --project-name are not varied.".to_string(),
+    ];
+    run.finish(coverage, assumptions);
+}
